@@ -411,7 +411,13 @@ impl Display for SequencedSegment {
 
 impl StreamSocket {
     fn new(capacity: usize) -> (Self, mpsc::Receiver<SequencedSegment>, BidiFlowControl) {
-        let (tx, rx) = mpsc::channel(capacity);
+        // Flow-control credits bound the *data* segments in flight to
+        // `capacity`; the FIN that follows them is not covered by a credit, so
+        // the in-order queue needs one more slot. Without it a FIN that
+        // arrives while the queue is full stays parked in the reorder buffer
+        // forever (nothing re-runs the release loop when the reader drains
+        // the queue) and the reader never sees EOF.
+        let (tx, rx) = mpsc::channel(capacity + 1);
         let flow_control = BidiFlowControl::new(capacity);
         let sock = Self {
             buf: IndexMap::new(),
